@@ -12,7 +12,7 @@ import time
 
 from .. import server, util, resp, gen
 from ..diff import Differ, Abandon
-from ..model import Model, matches, Err, ERR, Unordered, rclass
+from ..model import Model, matches, Err, ERR, Unordered, rclass, Adopt
 from ..resp import OK, QUEUED, NULL_ARRAY, Closed, Timeout, NOTHING
 from ..util import Result
 
@@ -234,7 +234,10 @@ def history(d, srv, rng, res, loaded):
                     m.dbs[cn.db] = trial
                     r0 = m.apply(cn.db, cand)
                     m.dbs[cn.db] = saved
-                    if not isinstance(r0, Err):
+                    # Adopt = the model takes the server's verdict (non-canonical integers such as "01" meeting
+                    # INCR, fv/DONTCARE.md): a don't-care form, not sent through the script path, where the reply
+                    # that would carry the verdict is not compared
+                    if not isinstance(r0, Err) and not isinstance(r0, Adopt):
                         a = cand
                         break
                 if a is None:
